@@ -206,7 +206,7 @@ def build_cases(tier, seed):
         spec = random_spec(s, prof)
         spec["global"]["log_events"] = False
         steps = spec["sim"]["steps"]
-        cases.append({"engine": "c15_diff", "id": f"C15-{i}", "seed": s, "spec": spec, "steps": steps, "variants": 2 if tier == "quick" else 3, "inject": True, "end_offset": [0, 0, 1, spec["sim"]["dt"] // 2][i % 4], "controller": [None, {"stack": ["Dispatcher", "ChargingFleetManager", {"hostile": {"p": 0.2, "seed": 11}}]}, {"stack": ["Dispatcher", "ChargingFleetManager", {"stateful": {"k": 2 + i % 3}}]}][i % 3]})
+        cases.append({"engine": "c15_diff", "id": f"C15-{i}", "seed": s, "spec": spec, "steps": steps, "variants": 2 if tier == "quick" else 3, "inject": True, "end_offset": [0, 0, 1, spec["sim"]["dt"] // 2][i % 4], "controller": [None, {"stack": ["Dispatcher", "ChargingFleetManager", {"hostile": {"p": 0.2, "seed": 11}}]}, {"stack": ["Dispatcher", "ChargingFleetManager", {"stateful": {"k": 2 + i % 3}}]}, {"stack": ["Dispatcher", "ChargingFleetManager", {"random_draw": {"k": 1 + i % 3}}]}][i % 4]})
     if tier == "thorough":
         for w, st in (("denver_downtown/denver_demo.yaml", 300), ("denver_downtown/denver_demo_fleets.yaml", 300)):
             pass  # shipped scenarios use ISO end times in the yaml; the generated ones cover the same code paths
@@ -222,7 +222,7 @@ def main(tier, seed):
     def summarize(v, results, by_id):
         v.rule = (
             "per generated scenario (live file cursors across the splits: requests and tariffs arriving right at, before and after split points; eager and lazy reading; int and ISO times): reference = fresh load + crank(1) x n with per-step "
-            "state fingerprints and event multisets; variants = fresh load + random compositions crank(a1)...crank(am) (states compared at call boundaries, events per flush), one of them re-injecting an instruction generator between calls; a third of the scenarios add the pure hostile generator and a third a generator in hive's immutable style whose behaviour depends on state it hands on by returning an updated copy of itself; fresh load + "
+            "state fingerprints and event multisets; variants = fresh load + random compositions crank(a1)...crank(am) (states compared at call boundaries, events per flush), one of them re-injecting an instruction generator between calls; a quarter of the scenarios add the pure hostile generator, a quarter a generator in hive's immutable style whose behaviour depends on state it hands on by returning an updated copy of itself, and a quarter a generator that draws from the process-wide random module (seeded by loading the scenario); fresh load + "
             "LocalSimulationRunner.run over [start, start + n*dt - offset) (step count = ceil, final state and events compared); LocalSimulationRunner.step at the end must refuse. non-trivial = every executed case; distinct = case hash"
         )
         v.assumptions = ["fingerprints drop activity instance ids only"]
